@@ -17,7 +17,12 @@ ScriptC == << I(0, S(0, 1)), I(0, NoAnn), I(1, NoAnn), F(1), I(3, S(1, 2)), I(4,
 (* D: blocks 1 and 2 finalised together (first-slot row), change on the finalised block itself *)
 ScriptD == << I(0, NoAnn), I(1, S(0, 2)), F(2), I(2, NoAnn), F(3) >>
 
-AllScripts == {ScriptA, ScriptB, ScriptC, ScriptD}
+(* E: an idle chain: the head is finalised again in later rounds (no new block), before and after a real finalisation, *)
+(*    twice in a row, and across a scheduled change                                                                     *)
+R(b) == [op |-> "Refinalise", p |-> 0, a |-> NoAnn, b |-> b]
+ScriptE == << I(0, NoAnn), F(1), R(1), I(1, S(0, 1)), R(1), F(2), R(2), R(2), I(2, NoAnn), F(3), R(3) >>
+
+AllScripts == {ScriptA, ScriptB, ScriptC, ScriptD, ScriptE}
 
 CAnns == {NoAnn} \cup {S(d, 1) : d \in {0, 1}} \cup {Fc(d, 1, m) : d \in {0, 1}, m \in {0, 1}}
 RAnns == {NoAnn} \cup {S(d, a) : d \in {0, 1, 2}, a \in {1, 2}} \cup {Fc(d, a, m) : d \in {0, 1, 2}, a \in {3}, m \in {0, 1, 2, 3}}
